@@ -62,7 +62,12 @@ SCHEMA2 = {i: {"publish": ["ksk_current", "ksk_next"], "sign": ["ksk_current", "
 SCHEMA_UNPUBLISHED = {i: {"publish": ["ksk_current", "ksk_new"], "sign": ["ksk_new"], "revoke": []} for i in range(1, 10)}
 SCHEMA_DROP = {i: {"publish": ["ksk_next"], "sign": ["ksk_next"], "revoke": []} for i in range(1, 10)}
 SCHEMA_SHORT = {1: {"publish": ["ksk_current"], "sign": ["ksk_current"], "revoke": []}}
-SCHEMAS = {"one": SCHEMA1, "two": SCHEMA2, "unpublished": SCHEMA_UNPUBLISHED, "drop": SCHEMA_DROP, "short": SCHEMA_SHORT}
+# a KSK that signs un-revoked, is revoked in the next slot and is gone after that: its early signature obliges it to stay published
+SCHEMA_SRD = {1: {"publish": ["ksk_current", "ksk_next"], "sign": ["ksk_current"], "revoke": []},
+              2: {"publish": ["ksk_next"], "sign": ["ksk_current", "ksk_next"], "revoke": ["ksk_current"]},
+              3: {"publish": ["ksk_next"], "sign": ["ksk_next"], "revoke": []}}
+SCHEMA_SRK = {1: SCHEMA_SRD[1], 2: SCHEMA_SRD[2], 3: {"publish": ["ksk_next"], "sign": ["ksk_next"], "revoke": ["ksk_current"]}}      # stays published (revoked): fine
+SCHEMAS = {"one": SCHEMA1, "two": SCHEMA2, "unpublished": SCHEMA_UNPUBLISHED, "drop": SCHEMA_DROP, "short": SCHEMA_SHORT, "srd": SCHEMA_SRD, "srk": SCHEMA_SRK}
 T0 = dt.datetime(2026, 1, 1, tzinfo=UTC)
 NOW = dt.datetime(2026, 1, 1, 12, tzinfo=UTC)
 import kskm.ksr.verify_policy as vp
@@ -371,6 +376,12 @@ for schema, why in (("unpublished", "the new SKR signs with a key that was never
     for existing in (None, OLD):
         go(dict(base1, schema=schema, why=why, out_existing=existing), "safety", "post-sign-failure")
 go(dict(base1, schema="unpublished", why="publish safety", via_main=True, out_existing=OLD), "safety-main", "post-sign-failure")
+PREV3 = prev_skr(3, SCHEMA2, ZP)
+KSR3 = successor(PREV3, ZP, n=3)
+for existing in (None, OLD):
+    go(dict(ksr=KSR3, prev=PREV3, schema="srd", force=True, n=3, n_prev=3, out_existing=existing,
+            why="a key that signed un-revoked in slot 1 is revoked in slot 2 and no longer published in slot 3"), "safety", "post-sign-failure")
+    go(dict(ksr=KSR3, prev=PREV3, schema="srk", force=True, n=3, n_prev=3, out_existing=existing), "clean-revocation", "success")
 # ---- D2. the schema has fewer slots than the KSR has bundles: not every requested bundle can be signed
 for existing in (None, OLD):
     go(dict(base1, schema="short", why="the schema has no action for bundle 2", out_existing=existing), "schema-too-short", "post-sign-failure")
